@@ -33,6 +33,12 @@ CLAIMS = {
             "Decides lock discipline, the three mutation guards (zero storage / absent slot / more than one slot, each with a recovered key), "
             "re-sealing with the verified key after every mutation, and that a key leaves getKey only through an unconditional constant-time "
             "HMAC verification after version/presence/algorithm checks; canonical hash order. OpenPGP/HMAC semantics are trusted.", "§3 C20"),
+    "C16": ("recover-fence and restart-loop path-cuts + who-may-spawn + blocking-operation scan",
+            "Decides that every piece of user code runs below a deferred function that itself calls recover() and reports the panic, that the "
+            "restart loops end only on success or cancellation and take a backoff + cancellable wait (+ re-trigger) in between, that a failing "
+            "queue item cannot leave the worker loop and is always released, that a failed watch reaches Run as an error and stops event "
+            "processing, that Run cancels and waits for its errgroup before returning, that no goroutine escapes the group and every blocking "
+            "channel operation has a done arm. Backoff growth and convergence after faults are not decided.", "§3 C16"),
     "C17": ("lockset on the dependency database + conflict-guard path-cuts + key-literal agreement + table exhaustiveness + rollback shape",
             "Decides that exclusive/shared claims are written only behind their conflict guards, that inputs are inserted only without an "
             "equal-key neighbour, that all lookup keys are built from one input's own (namespace,type,id), that notifications get a fresh "
